@@ -1,0 +1,109 @@
+//go:build verif
+// +build verif
+
+package partition
+
+// Accessors for the verification harness of property C02 (time-range queries). Nothing here changes
+// behaviour; the file is compiled only with `-tags verif`.
+
+import (
+	"context"
+	"io"
+	"sort"
+
+	"github.com/logrange/logrange/pkg/model"
+	"github.com/logrange/logrange/pkg/tmindex"
+	"github.com/logrange/range/pkg/records/chunk"
+	"github.com/logrange/range/pkg/records/journal"
+	"github.com/logrange/range/pkg/utils/bytes"
+)
+
+// VC02IWrapperHull drains `it` through a real iwrapper (Get, Next, ... until an error) the way a
+// chunk writer does and returns the iwrapper's minTs/maxTs and the number of records seen
+func VC02IWrapperHull(it model.Iterator) (minTs, maxTs int64, n int) {
+	iw := &iwrapper{it: it, pool: new(bytes.Pool)}
+	ctx := context.Background()
+	for {
+		_, err := iw.Get(ctx)
+		if err != nil {
+			break
+		}
+		n++
+		iw.Next(ctx)
+	}
+	minTs, maxTs = iw.minTs, iw.maxTs
+	iw.close()
+	return
+}
+
+// VC02Window is a chunk's chkStatus
+type VC02Window struct {
+	Cid    chunk.Id
+	MinPos uint32
+	MaxPos uint32
+	Count  uint32
+}
+
+// VC02Windows builds a fresh chkSelector for the range and returns the status it computes for every
+// chunk of the journal (rebuildChunkStatuses: SyncChunks + updatePoss per chunk)
+func VC02Windows(ctx context.Context, tmRange model.TimeRange, jrnl journal.Journal, tmidx tmindex.TsIndexer, rb TmIndexRebuilder) ([]VC02Window, error) {
+	cs := newChkSelector(tmRange, jrnl, tmidx, rb)
+	cks, err := jrnl.Chunks().Chunks(ctx)
+	if err != nil {
+		return nil, err
+	}
+	res := make([]VC02Window, 0, len(cks))
+	for _, ck := range cks {
+		st := cs.getChunkStatus(ctx, ck, cks)
+		if st == nil {
+			return nil, io.ErrUnexpectedEOF
+		}
+		res = append(res, VC02Window{ck.Id(), st.minPos, st.maxPos, st.count})
+	}
+	return res, nil
+}
+
+// VC02HoldRebuilder takes all worker slots of the index rebuilder, so that RebuildIndex requests are
+// queued and nothing is rebuilt in the background until VC02ServeQueued is called
+func (s *Service) VC02HoldRebuilder() {
+	for i := 0; i < cap(s.tmir.sema); i++ {
+		<-s.tmir.sema
+	}
+}
+
+// VC02Queued returns the chunk ids queued at the rebuilder, sorted
+func (s *Service) VC02Queued() []chunk.Id {
+	s.tmir.lock.Lock()
+	res := make([]chunk.Id, 0, len(s.tmir.chunks))
+	for c := range s.tmir.chunks {
+		res = append(res, c)
+	}
+	s.tmir.lock.Unlock()
+	sort.Slice(res, func(i, j int) bool { return res[i] < res[j] })
+	return res
+}
+
+// VC02ServeQueued serves every queued request synchronously (in chunk id order) with the rebuilder's own
+// serve function and returns the ids served. To be used while the rebuilder is held.
+func (s *Service) VC02ServeQueued() []chunk.Id {
+	ids := s.VC02Queued()
+	for _, c := range ids {
+		s.tmir.lock.Lock()
+		rs, ok := s.tmir.chunks[c]
+		s.tmir.lock.Unlock()
+		if !ok {
+			continue
+		}
+		s.tmir.serve(rs.src, c, rs.force)
+		s.tmir.lock.Lock()
+		delete(s.tmir.chunks, c)
+		s.tmir.lock.Unlock()
+	}
+	return ids
+}
+
+// VC02CheckPosOrAdvance calls chkStatus.checkPosOrAdvance on a status with the given window
+func VC02CheckPosOrAdvance(minPos, maxPos, count, pos uint32) (uint32, bool) {
+	st := &chkStatus{minPos: minPos, maxPos: maxPos, count: count}
+	return st.checkPosOrAdvance(pos)
+}
